@@ -549,12 +549,19 @@ class History:
             self.kind("edit_source")
             self.note("edit_source(%s)  # declared late" % s)
             return self.edit(s, "%s edited %d\n" % (s, c))
-        if x < 0.08:
-            # targeted: edit a source upstream of something a command only reaches through a phony alias / an order-only input
-            want_alias = rnd.random() < 0.5
+        if x < 0.10:
+            # targeted: edit a source upstream of something a command only reaches through a phony alias / an order-only input /
+            # an order-only input that it also reads and reports through its depfile (the generated-header pattern)
+            want = rnd.choice(["alias", "order-only", "order-only+read"])
+            want_alias = want == "alias"
             cands = []
             for st in cmds:
-                fs = [g for f in st.ins + st.imps if man.is_alias(f) for g in man.alias_files(f)] if want_alias else self.order_inputs(st)
+                if want == "order-only+read":
+                    rd = set(self.reads_of(st))
+                    fs = [f for f in st.oos if f in rd]
+                    cands += [f for f in fs if man.producer(f) is None and f in man.sources]     # a plain source used that way: edited directly below
+                else:
+                    fs = [g for f in st.ins + st.imps if man.is_alias(f) for g in man.alias_files(f)] if want_alias else self.order_inputs(st)
                 cands += [f for f in fs if man.producer(f) is not None and man.producer(f).kind == CMD]
             srcs = []
             if cands:
@@ -572,8 +579,8 @@ class History:
                         work += pr.ins + pr.imps
             if srcs:
                 s = rnd.choice(sorted(srcs))
-                self.kind("edit_source_behind_alias" if want_alias else "edit_source_behind_order_only")
-                self.note("edit_source(%s)  # upstream of %s" % (s, "a phony alias" if want_alias else "an order-only input"))
+                self.kind({"alias": "edit_source_behind_alias", "order-only": "edit_source_behind_order_only", "order-only+read": "edit_source_behind_order_only_input_that_is_also_read"}[want])
+                self.note("edit_source(%s)  # upstream of %s" % (s, {"alias": "a phony alias", "order-only": "an order-only input", "order-only+read": "an order-only input that the command also reads (depfile)"}[want]))
                 return self.edit(s, "%s edited %d\n" % (s, c))
         if x < 0.26:
             s = rnd.choice(man.sources)
